@@ -134,7 +134,9 @@ class Interp:
             if self.sigtype.get((v[1], v[2])) == "input":
                 self.store[k] = self.inputs(("signal", v[1])) % self.p
                 return self.store[k]
-            raise Abort("invalid: read of unassigned signal " + v[1])
+            # an intermediate or output signal that no statement has assigned on this path: the witness holds 0 there (the compiler
+            # does not reject the read when the assignment sits under a condition it cannot decide)
+            return 0
         if ty in ("component", "anoncomponent"):
             raise Abort("component value")
         if ty == "local":
